@@ -26,8 +26,10 @@ boltons.strutils functions and compared with independent oracles:
   and the integer constants found in boltons.strutils / gzip / io with neighbours and multiples, at every level.
   Plus directed content extremes (runs of one byte, periodic and incompressible data, 64 KiB .. 16 MiB, thorough
   128 MiB) at every level: ratio-dependent behaviour (plain/compressed up to ~1027:1 and below 1:1).
-* every call of a strutils function is the *second* call with equal arguments, after the first result was changed in
-  place by the caller (inputs.second_call, applied to every callable of the module, decorator objects included).
+* every call of a strutils function is the *last* call of a short history: a call with equal arguments whose result
+  was changed in place by the caller, then failing calls of the same function (a None appended to the list / an argument
+  iterator that raises at its end / malformed tail of the text / truncated gzip stream / str instead of bytes), then
+  the observed call (call_after_history, applied to every callable of the module, decorator objects included).
 
 No sampling: VERIF_SEED only chooses which cases are written out as samples.
 """
@@ -100,7 +102,7 @@ MAX_ROUNDS = 60              # re-batching rounds after derailed scripts, per ba
 class SecondCallAll:
     """Proxy of the module under test: every public callable that is not a class - plain functions and also callable
     wrapper objects such as functools.lru_cache / partial / C-implemented decorators, which inputs.SecondCallModule
-    (plain functions only) lets through unwrapped - goes through inputs.second_call."""
+    (plain functions only) lets through unwrapped - goes through call_after_history (second call + failing calls)."""
 
     def __init__(self, mod):
         self._mod = mod
@@ -108,13 +110,88 @@ class SecondCallAll:
     def __getattr__(self, name):
         v = getattr(self._mod, name)
         if callable(v) and not isinstance(v, type):
-            return inputs.second_call(v)
+            return call_after_history(v)
         return v
 
 
+_SCRAMBLE = '<changed by the caller>'
+FAIL_BYTES_CAP = 1 << 16      # bulk payloads: the failing call gets a prefix of at most this many bytes
+
+
+class _Boom(Exception):
+    """raised by the harness' own argument iterator"""
+
+
+def _raising_iter(items):
+    for x in items:
+        yield x
+    raise _Boom('argument iterator failed')
+
+
+def failing_variants(args, kwargs):
+    """Argument tuples for *failing* calls made by a careless caller, derived from the first data argument:
+    list -> the same list with a None appended (the function fails after it has processed every valid item) and an
+    iterator over the list that raises at its end; str -> the text with a malformed tail; gzip stream -> cut short;
+    other bytes -> the same content passed as str.  The calls are expected to raise; whatever they do is ignored."""
+    if not args:
+        return
+    a, rest = args[0], tuple(args[1:])
+    if isinstance(a, list):
+        yield (a + [None],) + rest
+        yield (_raising_iter(list(a)),) + rest
+    elif isinstance(a, str):
+        yield (a + ',x-;y:',) + rest
+    elif isinstance(a, (bytes, bytearray)):
+        b = bytes(a[:FAIL_BYTES_CAP])
+        if b[:2] == b'\x1f\x8b':
+            yield (b[:len(b) - max(1, min(len(b) // 3, 9))],) + rest
+        else:
+            yield (b.decode('latin-1'),) + rest
+
+
+def call_after_history(fn):
+    """Every evaluation is the last call of the history  ok-call, result changed in place by its owner, failing
+    call(s) (see failing_variants; exceptions swallowed as a caller would), ok-call with equal arguments: only the
+    result of the last call goes to the oracle.  Cached mutable results, memoised iterators and scratch state left behind
+    by a call that raised midway then show up as ordinary oracle failures.  (inputs.second_call plus the failing step.)"""
+    import types
+
+    def wrapper(*args, **kwargs):
+        one_shot = any(isinstance(a, (types.GeneratorType, map, filter, zip)) or
+                       (hasattr(a, '__next__') and not hasattr(a, '__len__'))
+                       for a in list(args) + list(kwargs.values()))
+        if one_shot:
+            return fn(*args, **kwargs)
+        try:
+            first = fn(*args, **kwargs)
+        except Exception:
+            first = None
+        try:
+            if hasattr(first, '__next__'):
+                for _ in first:
+                    pass
+            elif isinstance(first, list):
+                first.append(_SCRAMBLE)
+                first.reverse()
+            elif isinstance(first, dict):
+                first[_SCRAMBLE] = _SCRAMBLE
+            elif isinstance(first, (set, bytearray)):
+                first.clear()
+        except Exception:
+            pass
+        for fargs in failing_variants(args, kwargs):
+            try:
+                fn(*fargs, **kwargs)
+            except Exception:
+                pass
+        return fn(*args, **kwargs)
+    wrapper.__name__ = getattr(fn, '__name__', 'fn')
+    return wrapper
+
+
 def _su():
-    # every evaluation is the second call with equal arguments, made after the result of the first call was changed
-    # in place by its owner (see inputs.second_call): a result must not depend on earlier calls
+    # every evaluation is the last call of a short history: a call with equal arguments whose result was changed in
+    # place by its owner, then calls that fail midway (see call_after_history): a result must not depend on earlier calls
     from boltons import strutils
     return SecondCallAll(strutils)
 
@@ -1549,6 +1626,12 @@ def run(ctx):
     cov['oracle_selftest_vectors'] = selftests
     cov['shells'] = [{'name': s.name, 'argv': s.argv, 'env': s.env} for s in shells]
     cov['bounds'] = {
+        'call_history': 'every evaluation of every strutils function is the last call of: call with equal arguments '
+                        '(result changed in place by the caller); failing calls derived from the same arguments - '
+                        'list: None appended, and an argument iterator that raises after the last item; text: '
+                        'malformed tail appended; gzip stream: cut short; other bytes: passed as str (bytes '
+                        'capped at %d) - exceptions swallowed; observed call.  One process per shard, so state '
+                        'left behind by the calls of earlier cases is in effect as well' % FAIL_BYTES_CAP,
         'sh': {'alphabet': SH_ALPHA, 'single_argument_max_len': B['sh_maxlen'],
                'pairs_over_strings_up_to_len': B['sh_pair_len'], 'triples_over_strings_up_to_len': 1,
                'tokens': len(SH_TOKENS), 'token_lists': 'every token alone and every ordered pair',
